@@ -575,7 +575,7 @@ fn both_directions_c13(ctx: &Ctx, out: &mut Outcome) {
 pub fn c13(ctx: &Ctx) -> Outcome {
     let mut out = Outcome::default();
     use A13::*;
-    let len = ctx.tier.pick(6, 8);
+    let len = ctx.tier.pick(6, 9);
     explore_c13(ctx, "sock:c13-order", &[SynFresh, SynDup, Accept, AcceptCancelLast, Settle, CloseOldest], len, 64, false, &[1], &mut out);
     explore_c13(ctx, "sock:c13-connect", &[Connect, ConnectCancelLast, Accept, AcceptCancelLast, CloseOldest, Settle], len, 64, false, &[1], &mut out);
     explore_c13(ctx, "sock:c13-backlog", &[SynBurst33, SynFresh, Accept, Settle], ctx.tier.pick(5, 6), 64, false, &[1], &mut out);
